@@ -8,3 +8,5 @@ import G3D.Props.C02
 #print axioms G3D.Props.C02.inter_flat_polyhedron_exact
 #print axioms G3D.Props.C02.exact_hypothesis_decidable
 #print axioms G3D.Props.C02.coplanar_neighbours_break_exactness
+#print axioms G3D.Props.C02.constructed_polyhedron_meets_hypothesis
+#print axioms G3D.Props.C02.inter_flat_constructed_polyhedron_exact
